@@ -39,6 +39,51 @@ fn exec<S: Crystal>(initial: S, sc: &Scenario, which: &str) -> Result<RunOut, St
                 out.violate(Violation::new("returned-not-last-accepted", b.obs.len() as u64, format!("chain op {}: the returned crystal is neither the last accepted proposal nor the restored state", b.op)));
             }
         }
+        if which == "C19" {
+            // step bound on a real crystal: the allowed ranges are the declared ones (property C08's
+            // list), with the length and ratio upper bounds taken at the start of the stage
+            use std::f64::consts::PI;
+            let names = basis_names(&b.before)?;
+            let (_, vals) = named_values(&b.before)?;
+            let get = |n: &str| vals.iter().find(|x| x.0 == n).map(|x| x.1);
+            let len0 = get("cell.length").unwrap_or(1.0);
+            let ratio0 = get("cell.ratio").unwrap_or(1.0);
+            let ranges: Vec<Option<f64>> = names
+                .iter()
+                .map(|n| match n.as_str() {
+                    "cell.length" => Some(len0 - 0.01),
+                    "cell.ratio" => Some(ratio0 - 0.1),
+                    "cell.angle" => Some(PI / 2.0 - PI / 6.0),
+                    x if x.ends_with(".x") || x.ends_with(".y") => Some(1.0),
+                    x if x.ends_with(".angle") => Some(2.0 * PI),
+                    _ => None,
+                })
+                .collect();
+            let max_step = cfg.max_step;
+            let res = tr.feasible(x0_score, |e: &EdgeCtx| match e.mv {
+                None => Ok(()),
+                Some((j, from, to)) => match ranges.get(j as usize).copied().flatten() {
+                    None => Ok(()),
+                    Some(range) => {
+                        let allowed = max_step * range.max(0.0) / 2.0;
+                        let d = (to - from).abs();
+                        if d <= allowed * (1.0 + 1e-9) + 1e-12 {
+                            Ok(())
+                        } else {
+                            Err(format!(
+                                "{} moved by {:e} (from {:e} to {:e}); allowed max_step_size*range/2 = {:e} (range {:e}, max_step_size {})",
+                                names[j as usize], d, from, to, allowed, range, max_step
+                            ))
+                        }
+                    }
+                },
+            });
+            if let Err((k, why)) = res {
+                if k < tr.steps.len() {
+                    out.violate(Violation::new("step-too-large", k as u64, format!("real crystal, chain op {} proposal {}: {}", b.op, k, why)).sig("loop", "real"));
+                }
+            }
+        }
         if which == "C05" && cfg.kt_start == 0.0 {
             out.count("probe.real_zero_kt_stages", 1);
             if let (Some(a), Some(c)) = (x0_score, b.after.score()) {
@@ -81,7 +126,7 @@ pub fn gen(rng: &mut Rng, tier: Tier, which: &str) -> J {
             }
         }
     }
-    if rng.chance(0.3) {
+    if which != "C19" && rng.chance(0.3) {
         let at = rng.below(sc.chain.len() as u64) as usize;
         sc.chain.insert(at, Op::JsonEdit(rng.pick(&["x+1", "y-1", "angle-2pi", "angle+2pi", "cell-obtuse"]).to_string()));
     }
